@@ -23,7 +23,7 @@ import (
 )
 
 type renameMaps struct {
-	byDecl map[string]map[string]string // "<rel file dir>/<recv>.<name>" -> old -> new
+	byDecl map[string]map[string][]string // "<rel file dir>/<recv>.<name>" -> old name -> new names of the variables that had it
 }
 
 func declKey(d *ast.FuncDecl) string {
@@ -109,7 +109,7 @@ func parseDecls(path string) (*token.FileSet, map[string]*ast.FuncDecl) {
 }
 
 func loadRenames(repo, baselineDir string) *renameMaps {
-	rm := &renameMaps{byDecl: map[string]map[string]string{}}
+	rm := &renameMaps{byDecl: map[string]map[string][]string{}}
 	if _, err := os.Stat(baselineDir); err != nil {
 		return rm
 	}
@@ -137,17 +137,18 @@ func loadRenames(repo, baselineDir string) *renameMaps {
 			if bs != cs || len(bn) != len(cn) {
 				continue
 			}
-			m := map[string]string{}
-			clash := false
+			m := map[string][]string{}
 			for i := range bn {
-				if bn[i] != cn[i] {
-					if prev, dup := m[bn[i]]; dup && prev != cn[i] {
-						clash = true
-					}
-					m[bn[i]] = cn[i]
+				if !inList(m[bn[i]], cn[i]) {
+					m[bn[i]] = append(m[bn[i]], cn[i])
 				}
 			}
-			if len(m) > 0 && !clash {
+			for o, ns := range m {
+				if len(ns) == 1 && ns[0] == o {
+					delete(m, o)
+				}
+			}
+			if len(m) > 0 {
 				rm.byDecl[filepath.Dir(rel)+"/"+k] = m
 			}
 		}
@@ -158,7 +159,7 @@ func loadRenames(repo, baselineDir string) *renameMaps {
 
 // renamesFor: the rename map of the declaration that contains fn (closures share their
 // enclosing declaration's map).
-func (p *Program) renamesFor(fn *ssa.Function) map[string]string {
+func (p *Program) renamesFor(fn *ssa.Function) map[string][]string {
 	if p.Renames == nil || len(p.Renames.byDecl) == 0 || fn == nil {
 		return nil
 	}
